@@ -28,10 +28,24 @@ def execute(P, cases, ctx, tag="main", run_model=True):
         groups[json.dumps(getattr(P, "IMPL_ENV", None) or {})] = cases
     impl, model, errs = {}, {}, []
     for gi, (k, cs) in enumerate(sorted(groups.items())):
-        i, m, e = run_sharded(P.DRIVER, cs, ctx.drv, os.path.join(rundir, "g%d" % gi),
-                              impl_env=json.loads(k), run_model=run_model,
-                              shards=getattr(P, "SHARDS", None))
-        impl.update(i); model.update(m); errs += e
+        if hasattr(P, "augment"):
+            # two phases: the implementation runs first; what it observed about its own
+            # nondeterminism (HashMap / directory order) is handed to the model as an oracle
+            i, _, e = run_sharded(P.DRIVER, cs, ctx.drv, os.path.join(rundir, "g%d" % gi),
+                                  impl_env=json.loads(k), run_model=False, shards=getattr(P, "SHARDS", None))
+            errs += e
+            aug = [P.augment(c, i.get(c[0])) for c in cs]
+            m = {}
+            if run_model:
+                _, m, e2 = run_sharded(P.DRIVER, aug, ctx.drv, os.path.join(rundir, "m%d" % gi),
+                                       run_model=True, run_impl=False, shards=getattr(P, "SHARDS", None))
+                errs += e2
+        else:
+            i, m, e = run_sharded(P.DRIVER, cs, ctx.drv, os.path.join(rundir, "g%d" % gi),
+                                  impl_env=json.loads(k), run_model=run_model,
+                                  shards=getattr(P, "SHARDS", None))
+            errs += e
+        impl.update(i); model.update(m)
     if hasattr(P, "canon"):
         for d in (impl, model):
             for k in d:
